@@ -269,7 +269,9 @@ def body(c):
     if len(obs) != len(cases):
         raise vlib.ToolError("harness answered %d of %d cases" % (len(obs), len(cases)))
     # ---------------- mode V ----------------
-    v = vlib.run_tlc("lex/GrammarTrace.tla", "lex/GrammarTrace.cfg", env={"TRACE": c.path("trace.ndjson")}, workers=8,
+    # TLC reads only what it judges (the full observation stays in trace.ndjson for the replay files)
+    vlib.write_ndjson(c.path("v.ndjson"), [{k: o[k] for k in ("id", "mode", "toks", "gaps", "text", "acc", "ast")} for o in obs])
+    v = vlib.run_tlc("lex/GrammarTrace.tla", "lex/GrammarTrace.cfg", env={"TRACE": c.path("v.ndjson")}, workers=8,
                      timeout=6000, keep_lines=50, xmx="12g")
     c.add_tlc("V GrammarTrace", v)
     verdicts = {t[1]: (t[2], t[3]) for t in v.tagged("VERDICT")}
